@@ -288,7 +288,7 @@ class FsRun:
             self.quiet = False
             sim.rec("op", op)
         r = self.real
-        self.busy = k in ("makedirs", "rmtree", "out_rmtree", "rmroot")
+        self.busy = k in ("makedirs", "burst", "rmtree", "out_rmtree", "rmroot")
         if k == "mkfile":
             Y()
             with open(r(op[1]), "w"):
@@ -315,6 +315,18 @@ class FsRun:
                 p = p + "/" + nme
                 Y()
                 os.mkdir(r(p))
+        elif k == "burst":
+            p = op[1]
+            paths = []
+            for nme in op[2]:
+                p = p + "/" + nme
+                paths.append(p)
+                Y()
+                os.mkdir(r(p))
+            for lvl, fn in op[3]:
+                Y()
+                with open(r(paths[lvl] + "/" + fn), "w"):
+                    pass
         elif k == "rmdir":
             Y()
             os.rmdir(r(op[1]))
@@ -453,7 +465,7 @@ class FsRun:
             missing = c["R"] - D
             extra = D - c["A"]
             dup = []
-            if c["op"][0] not in ("makedirs", "rmtree", "rmroot"):
+            if c["op"][0] not in ("makedirs", "burst", "rmtree", "rmroot"):
                 for sh in c["R"]:
                     if not (sh[0] == "modified" and sh[1]) and evs.count(sh) > 1:
                         dup.append(sh)
